@@ -1,6 +1,6 @@
 (* The case interpreter of the correspondence check: one text line in, one canonical text line out.
    The Rust harness (`impldrv`) implements the same protocol on top of the real library. No proofs here. *)
-Require Import SD.Base SD.Text SD.Codes SD.Header SD.Name SD.RData SD.Packet SD.PktText SD.TextApi SD.Store SD.Owned.
+Require Import SD.Base SD.Text SD.Codes SD.Header SD.Name SD.RData SD.Packet SD.PktText SD.TextApi SD.Store SD.Pipeline SD.Owned.
 From Coq Require Import String.
 Open Scope N_scope.
 
@@ -432,34 +432,29 @@ Fixpoint run_store_ops (fuel : nat) (ts : list (list byte)) (st : store) (now : 
           | Some (me, t2) =>
             match r_bytes t2 with
             | Some (d, t3) =>
-              let reply_tok (p : packet) :=
-                match build_reply st p now with
-                | None => s2b "NONE"
-                | Some r => match write_packet_compressed (reply_packet r) with
-                            | Ok b => match parse_packet b with
+              (* what a handler did, as the harness prints it: a reply is shown as the records a receiver parses out of it *)
+              let handled_tok (h : outcome handled) :=
+                match h with
+                | Ok H_skip => s2b "SKIP" | Ok (H_invalid _) => s2b "ERR" | Ok H_no_reply => s2b "NONE"
+                | Ok (H_build_failed _) => s2b "WRITEFAIL"
+                | Ok (H_reply b _) => match parse_packet b with
                                       | Ok q => unwords [s2b "REPLY"; rrs_tok (ans q); rrs_tok (adds q)]
                                       | _ => s2b "PARSEFAIL" end
-                            | _ => s2b "WRITEFAIL" end
+                | Err _ => s2b "ERR" | Panic _ => s2b "PANIC" | OutOfFuel => s2b "HANG"
                 end in
-              let responder :=
-                match peek_has_flags d F_RESPONSE with
-                | Ok false => match parse_packet d with
-                              | Ok p => reply_tok p | Err _ => s2b "ERR" | Panic _ => s2b "PANIC" | OutOfFuel => s2b "HANG" end
-                | Panic _ => s2b "PANIC" | OutOfFuel => s2b "HANG"
-                | _ => s2b "SKIP"
-                end in
+              let responder := handled_tok (responder_step st d now) in
               let buf := d ++ zeros (4096 - List.length d) in
-              let oneshot := unwords [res_tok (peek_has_flags buf F_RESPONSE) bool_tok; res_tok (peek_id buf) N_to_hex;
-                                      res_tok (peek_answers buf) N_to_hex] in
-              match parse_packet d with
-              | Ok p =>
-                if has_flags (hdr p) F_RESPONSE then
-                  let sent := match ingest_filter svc me p with
-                              | [] => s2b "0"
-                              | l => instances_tok (match from_records svc l with Some i => [i] | None => [] end) end in
-                  run_store_ops f t3 (ingest st svc me p now) now
-                    (out ++ s2b " | D " ++ responder ++ s2b " / " ++ oneshot ++ s2b " / ING " ++ sent)
-                else run_store_ops f t3 st now (out ++ s2b " | D " ++ responder ++ s2b " / " ++ oneshot ++ s2b " / " ++ reply_tok p)
+              let oneshot := let '(a, b, c) := resolver_peeks buf in
+                             unwords [res_tok a bool_tok; res_tok b N_to_hex; res_tok c N_to_hex] in
+              match discovery_step st svc me d now with
+              | Ok (st', H_skip) =>
+                  let sent := match parse_packet d with
+                              | Ok p => match ingest_filter svc me p with
+                                        | [] => s2b "0"
+                                        | l => instances_tok (match from_records svc l with Some i => [i] | None => [] end) end
+                              | _ => s2b "0" end in
+                  run_store_ops f t3 st' now (out ++ s2b " | D " ++ responder ++ s2b " / " ++ oneshot ++ s2b " / ING " ++ sent)
+              | Ok (st', h) => run_store_ops f t3 st' now (out ++ s2b " | D " ++ responder ++ s2b " / " ++ oneshot ++ s2b " / " ++ handled_tok (Ok h))
               | Err _ => run_store_ops f t3 st now (out ++ s2b " | D " ++ responder ++ s2b " / " ++ oneshot ++ s2b " / ERR")
               | Panic _ => s2b "PANIC" | OutOfFuel => s2b "HANG"
               end
